@@ -208,60 +208,253 @@ func ruleGEffLegacy(c *Ctx) {
 		// 4. ANYONECANPAY: only the signed input remains
 		C + ".Inputs := " + C + ".Inputs[p1:(p1 + 1)]  when ((p2 & 128) != 0)",
 	}
-	got := collectEffects(c, fn)
-	// every effect happens after the SINGLE-out-of-range early return: drop that common guard from the comparison
-	var gs []string
-	common := ""
-	for _, e := range got {
-		var cs []string
-		for _, cd := range e.conds {
-			if strings.Contains(cd, "p1 > (len(p0.Outputs) - 1)") || strings.Contains(cd, "== nil") || strings.Contains(cd, "previousTxID) == 0") {
-				common = cd
+	// guards compared as boolean functions: a step may be written once under (A || B) or twice under A and B
+	w := newWEval(c.P, fn)
+	common := func(atom string) bool {
+		return strings.Contains(atom, "nil") || strings.Contains(atom, "previousTxID)") || strings.Contains(atom, "len(p0.Outputs)")
+	}
+	gotG := map[string][][]condLit{}
+	gotPos := map[string]token.Pos{}
+	nStores := 0
+	for _, b := range fn.Blocks {
+		for _, ins := range b.Instrs {
+			st, ok := ins.(*ssa.Store)
+			if !ok || rootIsLocal(st.Addr) {
 				continue
 			}
-			cs = append(cs, cd)
+			nStores++
+			key := w.term(st.Addr) + " := " + effectValue(w, st.Val)
+			g, okg := blockGuard(w, b)
+			if !okg {
+				c.Undecided("G-eff", "guard/"+shorten(key, 100), st.Pos(), "the conditions guarding this store cannot be enumerated")
+				continue
+			}
+			for _, cj := range g {
+				var nj []condLit
+				for _, l := range cj {
+					if !common(l.Atom) {
+						nj = append(nj, l)
+					}
+				}
+				gotG[key] = append(gotG[key], nj)
+			}
+			gotPos[key] = st.Pos()
 		}
-		e.conds = cs
-		gs = append(gs, e.String())
 	}
-	_ = common
-	sort.Strings(gs)
-	ws := append([]string{}, want...)
-	// canonical condition order
-	for i, s := range ws {
+	wantG := map[string][][]condLit{}
+	for _, s := range want {
 		parts := strings.SplitN(s, "  when ", 2)
+		var cj []condLit
 		if len(parts) == 2 {
-			cs := strings.Split(parts[1], " && ")
-			sort.Strings(cs)
-			ws[i] = parts[0] + "  when " + strings.Join(cs, " && ")
-		}
-	}
-	sort.Strings(ws)
-	gotSet, wantSet := map[string]bool{}, map[string]bool{}
-	for _, g := range gs {
-		gotSet[g] = true
-	}
-	for _, w := range ws {
-		wantSet[w] = true
-	}
-	c.Covered["G-eff:stores_in_legacy_preimage"] = len(gs)
-	for _, w := range ws {
-		c.Check(gotSet[w], "G-eff", "step/"+shorten(w, 120), fn.Pos(), "performed exactly under the specified condition", "the legacy algorithm's step is missing or guarded differently: "+w)
-	}
-	for _, e := range got {
-		cs := []string{}
-		for _, cd := range e.conds {
-			if strings.Contains(cd, "p1 > (len(p0.Outputs) - 1)") || strings.Contains(cd, "== nil") || strings.Contains(cd, "previousTxID) == 0") {
-				continue
+			for _, cs := range strings.Split(parts[1], " && ") {
+				truth := true
+				if strings.HasPrefix(cs, "!") {
+					truth, cs = false, cs[1:]
+				}
+				a, flip := canonAtom(cs)
+				cj = append(cj, condLit{Atom: a, Truth: truth != flip})
 			}
-			cs = append(cs, cd)
 		}
-		e.conds = cs
-		if !wantSet[e.String()] {
-			c.Fail("G-eff", "extra/"+shorten(e.String(), 120), e.pos, "the working copy is modified in a way the legacy algorithm does not specify: "+e.String())
+		wantG[parts[0]] = append(wantG[parts[0]], cj)
+	}
+	c.Covered["G-eff:stores_in_legacy_preimage"] = nStores
+	var keys []string
+	for k := range wantG {
+		keys = append(keys, k)
+	}
+	sort.Strings(keys)
+	for _, k := range keys {
+		g, has := gotG[k]
+		if !has {
+			c.Fail("G-eff", "step/"+shorten(k, 120), fn.Pos(), "the legacy algorithm's step is missing: "+k)
+			continue
+		}
+		eq, where := dnfEquivalent(g, wantG[k])
+		c.Check(eq, "G-eff", "step/"+shorten(k, 120), gotPos[k], "performed exactly under the specified condition", "the legacy algorithm's step "+k+" is guarded differently from the specification, e.g. under "+where)
+	}
+	var gk []string
+	for k := range gotG {
+		gk = append(gk, k)
+	}
+	sort.Strings(gk)
+	for _, k := range gk {
+		if _, has := wantG[k]; !has {
+			c.Fail("G-eff", "extra/"+shorten(k, 120), gotPos[k], "the working copy is modified in a way the legacy algorithm does not specify: "+k)
 		}
 	}
-	if len(gs) < 10 {
-		c.Undecided("G-eff", "min-instances", fn.Pos(), fmt.Sprintf("only %d stores found (expected the 10 steps)", len(gs)))
+	if len(gotG) < 9 {
+		c.Undecided("G-eff", "min-instances", fn.Pos(), fmt.Sprintf("only %d distinct effects found (expected the steps of the algorithm)", len(gotG)))
 	}
+}
+
+// ---- guards as boolean functions ----
+
+// localRegionDNF: conditions (between root = idom(b) and b) under which control reaches b.
+func localRegionDNF(w *WEval, root, b *ssa.BasicBlock) ([][]condLit, bool) {
+	var out [][]condLit
+	ok := true
+	var walk func(x *ssa.BasicBlock, acc []condLit, seen map[*ssa.BasicBlock]bool)
+	walk = func(x *ssa.BasicBlock, acc []condLit, seen map[*ssa.BasicBlock]bool) {
+		if len(out) > 128 {
+			ok = false
+			return
+		}
+		if seen[x] {
+			return
+		}
+		seen[x] = true
+		defer func() { seen[x] = false }()
+		step := func(s *ssa.BasicBlock, extra *condLit) {
+			a := acc
+			if extra != nil {
+				a = append(append([]condLit{}, acc...), *extra)
+			}
+			if s == b {
+				out = append(out, a)
+				return
+			}
+			if s != root && root.Dominates(s) {
+				walk(s, a, seen)
+			}
+		}
+		switch t := x.Instrs[len(x.Instrs)-1].(type) {
+		case *ssa.Jump:
+			step(x.Succs[0], nil)
+		case *ssa.If:
+			if isRangeHeaderCond(t) {
+				if ln, isC := t.Cond.(*ssa.BinOp).Y.(*ssa.Call); isC {
+					step(x.Succs[0], &condLit{Atom: "i in " + w.term(ln.Call.Args[0]), Truth: true})
+				}
+				step(x.Succs[1], nil) // after the loop: no guard
+				return
+			}
+			if isLoopHeader(x) {
+				// a counted loop: inside the body its continuation test holds; after it, nothing is known
+				step(x.Succs[0], &condLit{Atom: w.term(t.Cond), Truth: true})
+				step(x.Succs[1], nil)
+				return
+			}
+			cond, neg := t.Cond, false
+			for {
+				if u, isU := cond.(*ssa.UnOp); isU && u.Op == token.NOT {
+					cond, neg = u.X, !neg
+					continue
+				}
+				break
+			}
+			if ph, isPhi := cond.(*ssa.Phi); isPhi {
+				for i, s := range x.Succs {
+					dnf, okp := w.expandBoolPhi(ph, (i == 0) != neg, 0)
+					if !okp {
+						ok = false
+						return
+					}
+					for _, alt := range dnf {
+						a := append(append([]condLit{}, acc...), alt...)
+						if s == b {
+							out = append(out, a)
+						} else if s != root && root.Dominates(s) {
+							walk(s, a, seen)
+						}
+					}
+				}
+				return
+			}
+			atom := w.term(cond)
+			step(x.Succs[0], &condLit{Atom: atom, Truth: !neg})
+			step(x.Succs[1], &condLit{Atom: atom, Truth: neg})
+		}
+	}
+	walk(root, nil, map[*ssa.BasicBlock]bool{})
+	return out, ok
+}
+
+func canonDNF(d [][]condLit) [][]condLit {
+	var out [][]condLit
+	for _, cj := range d {
+		var nj []condLit
+		for _, l := range cj {
+			a, flip := canonAtom(l.Atom)
+			nj = append(nj, condLit{Atom: a, Truth: l.Truth != flip})
+		}
+		out = append(out, nj)
+	}
+	return out
+}
+
+func dnfAtoms(d [][]condLit, out map[string]bool) {
+	for _, cj := range d {
+		for _, l := range cj {
+			out[l.Atom] = true
+		}
+	}
+}
+
+func dnfTautology(d [][]condLit) bool {
+	atoms := map[string]bool{}
+	dnfAtoms(d, atoms)
+	names := keysSorted(atoms)
+	if len(names) > 12 {
+		return false
+	}
+	for m := 0; m < 1<<len(names); m++ {
+		val := map[string]bool{}
+		for i, a := range names {
+			val[a] = m&(1<<i) != 0
+		}
+		if !dnfHolds(d, val) {
+			return false
+		}
+	}
+	return true
+}
+
+// blockGuard: the guard of block b from the function entry, as the conjunction of the local region
+// guards along its dominator chain (regions that every path crosses contribute nothing).
+func blockGuard(w *WEval, b *ssa.BasicBlock) ([][]condLit, bool) {
+	guard := [][]condLit{nil}
+	for x := b; x.Idom() != nil; x = x.Idom() {
+		d, ok := localRegionDNF(w, x.Idom(), x)
+		if !ok {
+			return nil, false
+		}
+		d = canonDNF(d)
+		if len(d) == 0 || dnfTautology(d) {
+			continue
+		}
+		var next [][]condLit
+		for _, g := range guard {
+			for _, alt := range d {
+				next = append(next, append(append([]condLit{}, g...), alt...))
+			}
+		}
+		if len(next) > 256 {
+			return nil, false
+		}
+		guard = next
+	}
+	return guard, true
+}
+
+func dnfEquivalent(a, b [][]condLit) (bool, string) {
+	atoms := map[string]bool{}
+	dnfAtoms(a, atoms)
+	dnfAtoms(b, atoms)
+	names := keysSorted(atoms)
+	if len(names) > 14 {
+		return false, "too many atoms"
+	}
+	for m := 0; m < 1<<len(names); m++ {
+		val := map[string]bool{}
+		for i, n := range names {
+			val[n] = m&(1<<i) != 0
+		}
+		if !feasible(val) {
+			continue
+		}
+		if dnfHolds(a, val) != dnfHolds(b, val) {
+			return false, valString(val)
+		}
+	}
+	return true, ""
 }
